@@ -36,6 +36,10 @@ class Lib(Builtins):
         al = p.ghost['alloc']
         r = VRef(cls, al.z)
         p.ghost['alloc'] = VInt(al.z + 1)
+        for f in getattr(HEAPCLASSES[cls], 'dynamic', ()):
+            # attributes the constructor does not create start out absent
+            key = f'{cls}.{f}'
+            p.heap[key] = z3.Store(p.heap[key], al.z, to_z3(VNone, HEAPCLASSES[cls].fields[f]))
         fresh_objs = list(p.ghost.get('__fresh__', []))
         fresh_objs.append(al.z)
         p.ghost['__fresh__'] = fresh_objs
@@ -92,6 +96,12 @@ class Lib(Builtins):
         entry = ex.entry
         ectx = ex.ctx(entry, entry.env)
         parsed = [self.parse_modifies(ex, m, ectx) for m in c.modifies]
+        fn = ex.func
+        if getattr(fn, 'node', None) is not None and fn.node.name == '__init__' and fn.cls in HEAPCLASSES:
+            # a constructor initialises the object it was handed
+            sv = entry.env.get(fn.node.args.args[0].arg)
+            if isinstance(sv, VRef):
+                parsed.append(('heap', sv.cls, sv.z, z3.BoolVal(True), list(HEAPCLASSES[sv.cls].fields)))
         al0 = entry.ghost['alloc'].z
         from .contracts import GHOSTS
         allowed_ghosts = {m[1] for m in parsed if m[0] == 'ghost'}
@@ -368,7 +378,7 @@ class Lib(Builtins):
             guard = z3.And(guard, *extra)
         if not comp.ifs:
             p.add(z3.Length(res) == n)
-            p.add(z3.ForAll([j], z3.Implies(guard, res[j] == to_z3(elt, et)), patterns=[res[j]]))
+            p.add(z3.ForAll([j], z3.Implies(guard, res[j] == to_z3(elt, et))))
         else:
             # filtered: every kept element's image occurs, every member comes from a kept element,
             # length bounded; order is preserved (stated through an increasing index map)
@@ -379,11 +389,10 @@ class Lib(Builtins):
             elt_m = z3.substitute(to_z3(elt, et), (j, idx(m)))
             p.add(z3.ForAll([m], z3.Implies(z3.And(0 <= m, m < z3.Length(res)),
                                             z3.And(0 <= idx(m), idx(m) < n, keep_m, res[m] == elt_m,
-                                                   z3.Implies(m > 0, idx(m - 1) < idx(m)))), patterns=[res[m]]))
-            inv = z3.Function(fresh_name('finv'), z3.IntSort(), z3.IntSort())
+                                                   z3.Implies(m > 0, idx(m - 1) < idx(m))))))
+            inv =z3.Function(fresh_name('finv'), z3.IntSort(), z3.IntSort())
             p.add(z3.ForAll([j], z3.Implies(z3.And(guard, keep),
-                                            z3.And(0 <= inv(j), inv(j) < z3.Length(res), idx(inv(j)) == j)),
-                            patterns=[seq.z[j]]))
+                                            z3.And(0 <= inv(j), inv(j) < z3.Length(res), idx(inv(j)) == j))))
         return [Res(p, VList(et, res))]
 
     def gen_next(self, ex, g, p, node):
@@ -402,7 +411,7 @@ class Lib(Builtins):
             out = []
             # no element matches
             q = p2.fork()
-            q.add(z3.ForAll([j], z3.Implies(z3.And(0 <= j, j < n, *extra), z3.Not(keep)), patterns=[seq.z[j]]))
+            q.add(z3.ForAll([j], z3.Implies(z3.And(0 <= j, j < n, *extra), z3.Not(keep))))
             if q.feasible():
                 q.trail.append(('next', node.lineno, 'stop'))
                 out.append(Res(q, exc=VExc('StopIteration')))
@@ -414,7 +423,7 @@ class Lib(Builtins):
             for f in extraw:
                 p2.add(f)
             p2.add(keepw)
-            p2.add(z3.ForAll([j], z3.Implies(z3.And(0 <= j, j < w, *extra), z3.Not(keep)), patterns=[seq.z[j]]))
+            p2.add(z3.ForAll([j], z3.Implies(z3.And(0 <= j, j < w, *extra), z3.Not(keep))))
             p2.ghost['last_next_index'] = VInt(w)
             if p2.feasible():
                 p2.trail.append(('next', node.lineno, 'found'))
@@ -549,6 +558,9 @@ def _spec_call(self, sp, name, args, ctx):
         return VBytes(fn_aes_enc(args[0].z, args[1].z, args[2].z))
     if name == 'aes_dec':
         return VBytes(fn_aes_dec(args[0].z, args[1].z, args[2].z))
+    if name == 'at':
+        # at(seq, i): element i of a list without python's negative-index rule (for quantified clauses)
+        return from_z3(args[0].z[args[1].z], args[0].elem)
     if name == 'fresh_ref':
         # the object was allocated after the entry state of this contract (old)
         return VBool(args[0].z >= ctx.old_ghost['alloc'].z)
